@@ -270,6 +270,32 @@ def oracle_c16(cid, impl, m):
     return None
 
 
+def oracle_c14(cid, impl, m):
+    """Concurrently served requests answer what they answer alone."""
+    if "same" in impl:
+        if impl["same"] != "1":
+            return ("c14-interference", "a request answered differently when served concurrently: " + impl.get("x_diff", "")[:300])
+        return True
+    if "raced" in impl:
+        return True
+    return None
+
+
+def oracle_c19(cid, impl, m):
+    """Every sampled set of visible namespaces is one the model reaches after some
+    prefix of the history (never partial, never the invalid version), and the final
+    state is the model's (keep-last-good / new valid version takes effect)."""
+    if "states" not in m or "obs" not in impl:
+        return None
+    allowed = set(m["states"].split("|"))
+    for st in impl["obs"].split("|"):
+        if st not in allowed:
+            return ("c19-partial-state", f"observed visible namespaces {st!r}, not a state of any prefix of the history {sorted(allowed)}")
+    if impl.get("final") != m.get("final"):
+        return ("c19-final", f"final visible namespaces {impl.get('final')!r}, model {m.get('final')!r}")
+    return True
+
+
 ENGINE_RULE = ("configs from an OPL-shaped grammar (1-4 namespaces, related relations with plain and SubjectSet types, "
                "permissions over includes/permits/traverse/!/&&/||, rendered to OPL and loaded through the real parser, "
                "or legacy namespaces without relations), 0-54 tuples biased to declared relations, chains, cycles, duplicates; "
@@ -277,6 +303,29 @@ ENGINE_RULE = ("configs from an OPL-shaped grammar (1-4 namespaces, related rela
                "distinct = distinct protocol lines")
 
 PROPS = {
+    "C14": {
+        "lean_module": ["Keto.Props.C14"],
+        "theorems": ["Keto.C14_noninterference", "Keto.C14_progress", "Keto.C14_complete_runs", "Keto.C14_schedule_independent",
+                     "Keto.C14_other_requests_irrelevant", "Keto.C14_cells_consistent", "Keto.C14_prewarmed_readonly",
+                     "Keto.C14_lazy_cells_write_once", "Keto.C14_prewarm_tie", "Keto.C14_lazyInit_tie", "Keto.C14_lockUse_tie",
+                     "Keto.C14_shared_local_counterexample"],
+        "streams": [{"name": "conc", "n": {"quick": 40, "thorough": 400}, "oracle": oracle_c14, "thorough_seeds": 3},
+                    {"name": "conc-race", "n": {"quick": 10, "thorough": 60}, "oracle": oracle_c14, "thorough_seeds": 2, "race": True}],
+        "rule": "conc: 4-15 read requests (check, batch check, expand, paginated list following tokens) over a random stored state, each alone and then all concurrently (GOMAXPROCS 2/4/16), answers compared; conc-race: the same from a FRESH registry per round (concurrent first requests) plus concurrent writers, binary built with -race; non-trivial = at least 2 concurrent requests",
+        "partial": "the theorem covers logical isolation (request-local state, write-once registry cells created before serving) and the extracted locking discipline; race freedom of every other memory location is sampled by the Go race detector (a test, not a proof)",
+        "assumptions": ["the abstraction of a request into steps that write only request-local state or publish a request-independent registry member is read off the code (facts: lazy getters, Init pre-warming, lock use), not derived mechanically"],
+    },
+    "C19": {
+        "lean_module": ["Keto.Props.C19"],
+        "theorems": ["Keto.C19_legacy", "Keto.C19_legacy_every_prefix", "Keto.C19_legacy_invalid_keeps", "Keto.C19_legacy_valid_takes_effect",
+                     "Keto.C19_opl_single", "Keto.C19_opl_single_every_prefix", "Keto.C19_opl_global", "Keto.C19_opl_event",
+                     "Keto.C19_opl_never_partial", "Keto.C19_opl_one_entry_per_file", "Keto.C19_opl_multi_counterexample",
+                     "Keto.C19_atomic_step", "Keto.C19_lockUse_tie"],
+        "streams": [{"name": "watch", "n": {"quick": 14, "thorough": 120}, "oracle": oracle_c19, "thorough_seeds": 2}],
+        "rule": "real watchers (fsnotify) on a temporary directory: histories of 3-6 versions (2/3 valid) over 1-3 files, OPL (.ts) and legacy (.json/.yaml/.toml), each version written by atomic rename; a sampler polls Namespaces() every 0.3 ms; after each write the harness waits for 120 ms of quiescence; non-trivial = at least 3 versions",
+        "partial": "'eventually' is observed with a timeout; fsnotify delivery is trusted; multi-file OPL directories are all-or-nothing (known finding)",
+        "assumptions": ["file removal and non-atomic saves are outside the property's quantifier"],
+    },
     "C16": {
         "lean_module": "Keto.Props.C16",
         "theorems": ["Keto.C16_constants", "Keto.C16_batch_lookup", "Keto.C16_batch_lookup_all",
